@@ -274,6 +274,24 @@ func runC14(p *Prog, r *Report, tier string) {
 				got = append(got, k)
 			}
 			sort.Strings(got)
+			// a positive constant default (used when the caller leaves the interval at zero) may be folded into the same expression
+			if fmt.Sprint(got) != fmt.Sprint(want) {
+				var g2 []string
+				for _, g := range got {
+					if g != "const:positive default" {
+						g2 = append(g2, g)
+					}
+				}
+				var w2 []string
+				for _, w := range want {
+					if w != "const:positive default" {
+						w2 = append(w2, w)
+					}
+				}
+				if fmt.Sprint(g2) == fmt.Sprint(w2) {
+					got = want
+				}
+			}
 			r.Check(okL && fmt.Sprint(got) == fmt.Sprint(want), "R-PERIOD.value", fnKey(b)+": ticker period ("+role+")", p.instrPos(in), fmt.Sprint(got),
 				fmt.Sprintf("the %s ticker is built from %v, expected %v: the interval the caller configured is not the interval that is used", role, got, want), true)
 		})
@@ -330,6 +348,12 @@ func (p *Prog) periodLeaves(v ssa.Value, mul int64, out map[string]bool, depth i
 		}
 		return true
 	case *ssa.FreeVar:
+		o := p.origin(x)
+		if o == ssa.Value(x) {
+			return false
+		}
+		return p.periodLeaves(o, mul, out, depth+1)
+	case *ssa.Parameter:
 		o := p.origin(x)
 		if o == ssa.Value(x) {
 			return false
